@@ -243,6 +243,12 @@ def _install() -> None:
         dividend = {"names": [name], "shape": list(shape), "dtype": "float64",
                     "exponents": [[e] for e in range(nd + 1)],
                     "coefficients": [[float(ch.choice([-2, -1, 0, 1, 2, 3])) for _ in range(size)] for _ in range(nd + 1)], "retain": True}
+        ct = ch.sub("tiny")
+        if ct.chance(0.25):
+            # a term far below the size at which the division stops looking for quotients (1e-40): small is not zero, and
+            # the dividend is the caller's object
+            t = ct.below(nd + 1)
+            dividend["coefficients"][t] = [ct.choice([1e-40, -1e-40, 3e-35, 1e-40]) for _ in range(size)]
         dd = ch.between(0, 2)
         divisor = {"names": [name], "shape": list(shape if ch.chance(0.5) else ()), "dtype": "float64",
                    "exponents": [[e] for e in range(dd + 1)],
@@ -333,7 +339,13 @@ def _install() -> None:
         size = int(numpy.prod(shape, dtype=int))
         targets = {1: [(), (1,), (1, 1)], 2: [(2,), (1, 2), (2, 1), (-1,)], 3: [(3,), (3, 1), (1, 3)], 4: [(4,), (2, 2), (-1, 2), (1, 4)],
                    6: [(6,), (2, 3), (3, 2), (-1,), (1, 2, 3)], 8: [(8,), (2, 4), (4, 2), (2, 2, 2)]}[size]
-        return {"args": [P(gen_poly(ch.sub("a"), shape=shape)), {"tuple": list(ch.choice(targets))}], "kwargs": {}}
+        target = list(ch.choice(targets))
+        how = ch.sub("shape-as").weighted([(5, "tuple"), (2, "array"), (1, "list")])
+        if how == "array" and target:
+            # the new shape handed over as an integer array (the caller's own object)
+            dt = ch.sub("shape-as").choice(["int64", "int64", "int32"])
+            return {"args": [P(gen_poly(ch.sub("a"), shape=shape)), A(numpy.array(target, dtype=dt), dt)], "kwargs": {}}
+        return {"args": [P(gen_poly(ch.sub("a"), shape=shape)), {"seq": target} if how == "list" and target else {"tuple": target}], "kwargs": {}}
 
     _reg("reshape", g_reshape, lambda a, k: n.reshape(a[0], a[1]), "shape")
     _reg("method.reshape", g_reshape, lambda a, k: a[0].reshape(a[1]), "shape", weight=1)
